@@ -129,6 +129,58 @@ theorem li_value_marker (f : Spec.Frame) (rest : Spec.Frames) (v : Int) :
   simp [Spec.update, Spec.foldPairs, Spec.reset, Spec.machine, flookup_fset_same, Spec.stack, Spec.flookup,
     Spec.optStack]
 
+private theorem exAll_bind {α β : Type} {P : α → Prop} {Q : β → Prop} {x : Except CErr α} {f : α → Except CErr β}
+    (h : ExAll P x) (hf : ∀ a, P a → ExAll Q (f a)) : ExAll Q (x >>= f) := by
+  cases x <;> simp_all [ExAll, Bind.bind, Except.bind]
+
+private theorem stack_of_column' (n : String) (fr : Spec.Frames) : Spec.stack fr n = (column n fr).filterMap id := by
+  induction fr with
+  | nil => rfl
+  | cons f rest ih =>
+    simp only [Spec.stack, column, List.map_cons, List.filterMap_cons] at ih ⊢
+    cases Spec.flookup f n <;> simp [ih]
+
+/-- **C15.item_then_items** — an element that gives `list-item` the value `v` by its own declarations (an
+`<li value=v>`; any element resetting / setting the counter), whatever contained content it has (nested lists
+included), followed by `k` items: the list's counter is `v + k` afterwards. -/
+theorem item_then_items (cs : Styles) (targets stored : Targets) (ops : Ops) (listStyle : Option CName)
+    (markerContent : Option (List Item)) (anchor : Option String) (before after : Option Pseudo) (kids : List Elem)
+    (items : List Elem) (fr : Spec.Frames) (v : Int) (tl : List Int)
+    (hd : ops.disp ≠ .none) (hb : pseudoQuiet "list-item" before = true) (ha : pseudoQuiet "list-item" after = true)
+    (hk : containedSeq "list-item" kids = true) (hitems : ∀ e ∈ items, isItem e = true)
+    (hs : Spec.stack (Spec.update fr ops) "list-item" = v :: tl) :
+    ExAll (fun r => Spec.stack r.state "list-item" = (v + items.length) :: tl)
+      (kidsRun Spec.machine cs targets (.mk ops listStyle markerContent anchor before after kids :: items) fr stored) := by
+  unfold kidsRun
+  refine exAll_bind (own_ops_only_nested "list-item" cs targets ops listStyle markerContent anchor before after kids
+    fr stored hd hb ha hk) ?_
+  intro r1 hr1
+  have hs1 : Spec.stack r1.state "list-item" = v :: tl := by
+    rw [stack_of_column', hr1, ← stack_of_column', hs]
+  refine exAll_bind (list_numbers_nested cs targets items r1.state r1.stored v tl hitems hs1) ?_
+  intro r2 hr2
+  simp only [ExAll, pure, Except.pure, hr2]
+
+/-- **C15.li_value_numbers** — `<li value="v">` (any contained content, nested lists included) followed by `k`
+items without `value`: the items count `v + 1, …, v + k` (the innermost `list-item` instance is `v + k` after
+them), for every integer `v`.  With `ol_start_numbers` this is the list clause of the property for `start` and
+`value` on the reference semantics, hence on `counter_values` by `scope_refines`. -/
+theorem li_value_numbers (cs : Styles) (targets stored : Targets) (f : Spec.Frame) (rest : Spec.Frames) (v : Int)
+    (style : Option CName) (marker after : Option (List Item)) (kids : List LNode)
+    (hk : containedSeq "list-item" (toElems kids) = true) (items : List Elem) (hitems : ∀ e ∈ items, isItem e = true) :
+    ExAll (fun r => Spec.stack r.state "list-item" = (v + items.length) :: Spec.stack rest "list-item")
+      (kidsRun Spec.machine cs targets (toElem (.li (some [.int v]) style marker after kids) :: items) (f :: rest)
+        stored) := by
+  have hs : Spec.stack (Spec.update (f :: rest) (applyHint Gen.liHint Gen.uaLi (some [.int v]))) "list-item" =
+      v :: Spec.stack rest "list-item" := by
+    rw [li_value_ops]
+    simp [Spec.update, Spec.foldPairs, Spec.reset, Spec.stack, flookup_fset_same]
+  have hd : (applyHint Gen.liHint Gen.uaLi (some [.int v])).disp ≠ .none := by rw [li_value_ops]; simp
+  have ha : pseudoQuiet "list-item" (after.map fun items => (⟨plainOps, items⟩ : Pseudo)) = true := by
+    cases after <;> simp [pseudoQuiet, opsQuiet, plainOps, namesOf]
+  exact item_then_items cs targets stored _ style marker none none _ (toElems kids) items (f :: rest) v _ hd rfl ha hk
+    hitems hs
+
 /-! Non-vacuity -/
 section Examples
 private def items3 : List LNode := List.replicate 3 (.li none (some (.named "decimal")) none none [])
@@ -142,6 +194,8 @@ example : Spec.stack (Spec.machine.push (Spec.update Spec.init (applyHint Gen.ol
 example : Spec.stack (Spec.machine.push (Spec.update Spec.init (applyHint Gen.olHint Gen.uaOl (some [.int (-2)]))))
     "list-item" = [-3] := by decide
 example : applyHint Gen.olHint Gen.uaOl (some [.int 0]) ≠ applyHint Gen.olHint Gen.uaOl none := by decide
+-- `li_value_numbers`: its hypotheses hold of `<li value=0>` holding a nested list, followed by three items
+example : containedSeq "list-item" (toElems [.ol (some [.int 5]) items3]) = true := by decide
 example : counterProp 0 [.ident "list-item", .ident "none"] = none := by decide
 example : counterProp 1 [.ident "c", .int 2, .ident "d"] = some [("c", 2), ("d", 1)] := by decide
 -- non-integers: `1.5` drops the reset and keeps the decrement, `abc` resets two counters
